@@ -443,8 +443,13 @@ def check_overlong(v, dt):
         return [], False
     text = ('5' if dt == 'TN' else 'a') * (mx + 1)
     out = []
+    def as_object(target):
+        # the same text wrapped in a datatype object that was built elsewhere (under TOLERANT)
+        target.value = cls(text, validation_level=TOL)
     for what, fn in (('SubComponent', lambda: SubComponent(datatype=dt, value=text, version=v, validation_level=STRICT)),
-                     ('Component', lambda: setattr(Component(datatype=dt, version=v, validation_level=STRICT), 'value', text))):
+                     ('Component', lambda: setattr(Component(datatype=dt, version=v, validation_level=STRICT), 'value', text)),
+                     ('SubComponent.value = object', lambda: as_object(SubComponent(datatype=dt, version=v, validation_level=STRICT))),
+                     ('Component.value = object', lambda: as_object(Component(datatype=dt, version=v, validation_level=STRICT)))):
         try:
             fn()
             out.append(('C05-strict-holds-over-long-%s-leaf' % dt, 'v%s %s(datatype=%s) under STRICT took %d characters (maximum %d)' % (v, what, dt, mx + 1, mx)))
@@ -452,6 +457,19 @@ def check_overlong(v, dt):
             pass
         except Exception as e:
             out.append(('C05-overlong-raises:%s' % type(e).__name__, 'v%s %s %s: %s' % (v, what, dt, e)))
+    # and an object of another class: a STRICT leaf holds values of its own datatype only
+    other = 'NM' if dt != 'NM' else 'ST'
+    ocls = T.lib(v).BASE_DATATYPES.get(other)
+    if ocls is not None and dt != 'varies':
+        try:
+            sc = SubComponent(datatype=dt, version=v, validation_level=STRICT)
+            sc.value = ocls(7) if other == 'NM' else ocls('abc')
+            if type(sc.value).__name__ != dt:
+                out.append(('C05-strict-leaf-of-foreign-class', 'v%s SubComponent(datatype=%s) under STRICT took a %s object' % (v, dt, other)))
+        except (HL7apyException, ValueError):
+            pass
+        except Exception as e:
+            out.append(('C05-overlong-raises:%s' % type(e).__name__, 'v%s %s foreign object: %s' % (v, dt, e)))
     return out, True
 
 
